@@ -27,6 +27,9 @@ STR = {
     't': '"\\t"', 'u': '"\\u00e9\\u0041"', 'pair': '"\\ud83d\\ude00"',
     'raw': '"é€\U0001F600"', 'apos': '"it\'s"', 'nul': '"\\u0000"',
     'space': '" a  b "',
+    # hexadecimal digits of either case (JSON and ES5 allow both)
+    'pairU': '"\\uD83D\\uDE00"', 'pairM': '"x\\uD83d\\uDe00\\uD834\\udd1e"',
+    'uU': '"\\u00E9\\u00e9\\u2028"',
 }
 KEY = {
     'ident': '"a"', 'ident2': '"b"', 'space': '"a b"', 'numlike': '"1"',
